@@ -90,9 +90,12 @@ class Compiler:
                             # Bring the current address forward
                             def closure(insn):
                                 nonlocal data, addr
+                                # The skip may be evaluated after the loop has moved on:
+                                # remember the state and the address of this statement
+                                insn_state, insn_addr = state, addr
                                 def fn():
-                                    old_addr_value = wait(addr)
-                                    new_addr_value = get_as_int(state, "link address", state["insn"], insn.value, bitness=16, unsigned=False)
+                                    old_addr_value = wait(insn_addr)
+                                    new_addr_value = get_as_int(insn_state, "link address", insn, insn.value, bitness=16, unsigned=False)
                                     length = new_addr_value - old_addr_value
                                     if length < 0:
                                         reports.error(
